@@ -330,6 +330,40 @@ def rule_chebyshev_bounds(ck, units, which=('cheb', 'sib')):
                     elif pol != scaled:
                         dets.append('spectral_radius<%s> at %s is used on the prm.scale == %s path' % ('true' if scaled else 'false', f.where(c), 'true' if pol else 'false'))
                 ck.ob('cheb-scale-consistent', 'amgcl::relaxation::chebyshev::ctor', f.where(), not dets, '; '.join(dets[:2]))
+                # the interval [lower * rho, higher * rho]: both ends are multiples of the ESTIMATE rho.  Where the estimate is scaled in place
+                # (`hi *= prm.higher`), the other end must have been derived from it before.
+                from effects import path_between
+                ck.rule('cheb-bounds-from-estimate', 'chebyshev: both ends of the interval are multiples of the spectral radius estimate: the variable that holds the estimate is not '
+                                                     'rescaled by one of prm.lower / prm.higher before the other end is derived from it', 1)
+
+                def mentions(e, name):
+                    return any(x['k'] not in ('ref', 'lit') and show(x).endswith('prm.' + name) for x in walk(e))
+
+                def assigns(n):
+                    """(target decl, value tree, reads the target itself) of an assignment / initialisation"""
+                    if n['k'] == 'bin' and n['op'] in ('=', '*=', '/=') and unwrap(n['x'])['k'] == 'ref':
+                        return [(unwrap(n['x'])['d'], n['y'], n['op'] != '=' or any(x['k'] == 'ref' and x['d'] == unwrap(n['x'])['d'] for x in walk(n['y'])), n)]
+                    if n['k'] == 'decl':
+                        return [(v['d'], v['init'], False, n) for v in n['v'] if v.get('init') is not None]
+                    return []
+                ends = {}
+                for n in f.nodes.values():
+                    for d, val, selfref, node in assigns(n):
+                        for name in ('lower', 'higher'):
+                            if mentions(val, name):
+                                ends.setdefault(name, []).append((d, val, selfref, node))
+                bad = []
+                for name, other in (('lower', 'higher'), ('higher', 'lower')):
+                    for d, val, selfref, node in ends.get(name, []):
+                        if not selfref:
+                            continue            # a fresh variable receives this end: nothing is overwritten
+                        # `d` (the estimate) is rescaled in place by prm.<name>; the other end must not read `d` afterwards
+                        for d2, val2, _, node2 in ends.get(other, []):
+                            if any(x['k'] == 'ref' and x['d'] == d for x in walk(val2)) and node2 is not node and path_between(f, node, node2):
+                                bad.append('`%s` is rescaled by prm.%s at %s and then used at %s to derive the prm.%s end of the interval: that end becomes %s * %s * rho' % (
+                                    f.decl(d)['n'], name, f.where(node), f.where(node2), other, name, other))
+                if ends.get('lower') and ends.get('higher'):
+                    ck.ob('cheb-bounds-from-estimate', 'amgcl::relaxation::chebyshev::ctor', f.where(ends['lower'][0][3]), not bad, '; '.join(bad[:2]))
         # smoothed aggregation damps with omega / rho(D^-1 A_F): its estimate is always the one of the diagonally scaled operator
         if 'cheb' in which or 'sa' in which:
             for f in u.funcs:
